@@ -654,6 +654,9 @@ func Monitor(res *Result, which string) []vh.Violation {
 		last := map[int]*lastLog{} // integration -> last log write
 		var prev *FlushObs
 		for _, f := range fl[gk] {
+			if !f.Ended {
+				continue // still in flight when the run was stopped: not judged
+			}
 			firing, resolved := res.post(f)
 			// ---- timing between consecutive flushes of one group incarnation (C04 / C01) ----
 			if prev != nil && prev.Ended && (which == "C04" || which == "C01") {
@@ -677,12 +680,19 @@ func Monitor(res *Result, which string) []vh.Violation {
 			}
 			for i, ij := range g.Ints {
 				L := last[i]
-				if L != nil && (res.gcBetween(L.T, f.TEnd) || f.T-L.T >= res.Sc.Retention || f.T-L.T >= 2*g.RI && g.RI > 0) {
-					L = nil // the entry may have expired / been collected: not judged (C10 covers the log itself)
-					if last[i] != nil {
-						last[i] = nil
+				if L != nil {
+					// the entry is gone once a log GC ran at or after its expiry (nflog.Log: now + min(retention, 2*repeat))
+					exp := L.T + res.Sc.Retention
+					if 2*g.RI > 0 && res.Sc.Retention > 2*g.RI {
+						exp = L.T + 2*g.RI
 					}
-					continue
+					for _, gc := range res.GCs {
+						if gc > L.T && gc <= f.T+res.Wait && gc >= exp {
+							L = nil
+							last[i] = nil
+							break
+						}
+					}
 				}
 				var notifs []sim.Rec
 				for _, n := range f.Notifies {
@@ -797,6 +807,11 @@ func Monitor(res *Result, which string) []vh.Violation {
 					if !okBefore && !(len(l.Firing) == 0 && !ij.SendResolved) {
 						add("log-without-successful-send", fmt.Sprintf("group %s integration %d", gk, i))
 					}
+					if last[i] != nil && last[i].T == l.T {
+						// DESIGN I5: two log writes for one key at the very same instant exist only under virtual time;
+						// nflog.Log keeps the first (timestamp not newer). Not judged; the model mirrors it.
+						continue
+					}
 					last[i] = &lastLog{T: l.T, Firing: res.ids(l.Firing), Resolved: res.ids(l.Resolved)}
 				}
 			}
@@ -889,16 +904,44 @@ func Monitor(res *Result, which string) []vh.Violation {
 // MonitorC04 is kept for the C04 harness.
 func MonitorC04(res *Result) []vh.Violation { return Monitor(res, "C04") }
 
-// Fix recomputes derived fields after JSON decoding (replay).
-func (sc *Scenario) Fix() {
-	p := func(s string) int64 {
-		d, err := model.ParseDuration(s)
-		if err != nil {
-			return 0
+
+// Dump renders the flush table of a run (debugging aid for replays).
+func (res *Result) Dump() string {
+	var b strings.Builder
+	fmt.Fprintf(&b, "T0=%d GW=%s GI=%s RI=%s ret=%d\n", res.T0, res.Sc.GWs, res.Sc.GIs, res.Sc.RIs, res.Sc.Retention)
+	for _, r := range res.Recs {
+		rel := r.T - res.T0
+		switch r.Kind {
+		case "publish":
+			a := r.Alerts[0]
+			fmt.Fprintf(&b, "%12d publish id=%d resolved=%v starts=%d ends=%d upd=%d\n", rel, res.idOf(a.Labels), a.Resolved, a.Starts-res.T0, a.Ends-res.T0*b2i(a.Ends != 0), a.Updated-res.T0)
+		case "flush":
+			var xs []string
+			for k, a := range r.Alerts {
+				xs = append(xs, fmt.Sprintf("%d:%v:%v", res.idOf(a.Labels), a.Resolved, r.Suppressed[k]))
+			}
+			fmt.Fprintf(&b, "%12d flush %s tau=%d alerts(id:resolved:suppressed)=%v\n", rel, r.GKey, r.Tau-res.T0, xs)
+		case "notify":
+			var xs []string
+			for _, a := range r.Alerts {
+				xs = append(xs, fmt.Sprintf("%d:%v", res.idOf(a.Labels), a.Resolved))
+			}
+			fmt.Fprintf(&b, "%12d notify %s i=%d %s reason=%q %v\n", rel, r.GKey, r.I, r.Outcome, r.Reason, xs)
+		case "log":
+			fmt.Fprintf(&b, "%12d log %s i=%d firing=%s resolved=%s\n", rel, r.GKey, r.I, res.hashIDs(r.Firing), res.hashIDs(r.Resolved))
+		case "flushend":
+			fmt.Fprintf(&b, "%12d flushend %s ok=%v\n", rel, r.GKey, r.Ok)
 		}
-		return int64(d)
 	}
-	if sc.GWs != "" {
-		sc.GW, sc.GI, sc.RI = p(sc.GWs), p(sc.GIs), p(sc.RIs)
+	for _, g := range res.GCs {
+		fmt.Fprintf(&b, "gc at %d\n", g-res.T0)
 	}
+	return b.String()
+}
+
+func b2i(b bool) int64 {
+	if b {
+		return 1
+	}
+	return 0
 }
